@@ -69,8 +69,9 @@ theorem OKE.step {env : Env} {a b : Ty} (h : OKE env a) (hr : Reach env a b) : O
 theorem OKW.step {env : Env} {a b : Ty} (h : OKW env a) (hr : Reach env a b) : OKW env b :=
   fun t ht => h t (Reach.trans hr ht)
 
-/-- the input is short enough for every per-element cost to fit a machine word (eleven units per byte at most) -/
-def Small (s : St) : Prop := s.input.length * 11 ≤ usizeMax
+/-- (no condition any more: an announced length whose per-element cost does not fit a machine word is reported by the
+mirrors as a host limit, `err limit`, like an exhausted depth budget; the parameter is kept in the lemmas below) -/
+def Small (_ : St) : Prop := True
 
 /-! ## the outcomes compared -/
 
@@ -92,13 +93,7 @@ theorem Skips.of_inp {d : R Val} {s : St} {a r : Bytes} (h : Skips d (inp s a) r
   · exact Or.inl h
   · exact Or.inr ⟨x, by rw [h, inp_inp]⟩
 
-theorem inp_small (s : St) (b r : Bytes) (hs : Small s) (hin : s.input = b ++ r) : Small (inp s r) := by
-  unfold Small at *
-  rw [inp_input]
-  rw [hin] at hs
-  simp only [List.length_append] at hs
-  have : r.length * 11 ≤ (b.length + r.length) * 11 := Nat.mul_le_mul_right 11 (Nat.le_add_left _ _)
-  omega
+theorem inp_small (s : St) (b r : Bytes) (_ : Small s) (_ : s.input = b ++ r) : Small (inp s r) := trivial
 
 theorem inp_untyped (s : St) (x : Bytes) (b : Bool) : ({ inp s x with untyped := b } : St) = inp { s with untyped := b } x := rfl
 
@@ -336,12 +331,6 @@ theorem vec_skip (env : Env) (m : Nat) (hI : SKI env m) (ww : Ty) (vs : List Val
     have hsm2 : Small (inp s (bss.flatten ++ r)) := inp_small s (uleb vs.length) _ hsm (by rw [hin, List.append_assoc])
     have hallw : ∀ e ∈ vs, ∃ k, canon env k e wire = true := fun e he => canon_trace_inv env m ww wire n e htr (hall e he)
     have hokw : OKW env wire := hok.step (reach_trace env m ww wire htr)
-    have hbound : bss.flatten.length * 11 ≤ usizeMax := by
-      have := hsm2
-      unfold Small at this
-      rw [inp_input, List.length_append] at this
-      have h2 : bss.flatten.length * 11 ≤ (bss.flatten.length + r.length) * 11 := Nat.mul_le_mul_right 11 (Nat.le_add_right _ _)
-      omega
     cases hx : exactPrim ww wire with
     | some p =>
       simp only []
@@ -365,9 +354,8 @@ theorem vec_skip (env : Env) (m : Nat) (hI : SKI env m) (ww : Ty) (vs : List Val
       simp only [hsz, Option.getD_some]
       have hn : vs.length ≤ bss.flatten.length := by
         rw [hflat]; exact Nat.le_mul_of_pos_right _ hsz1.1
-      have h1 : ¬ (vs.length * (3 + sz) > usizeMax) := by
-        have : vs.length * (3 + sz) ≤ bss.flatten.length * 11 := Nat.mul_le_mul hn (by omega)
-        omega
+      by_cases h1 : vs.length * (3 + sz) > usizeMax
+      · rw [if_pos h1]; first | exact Or.inl rfl | exact CoRel.starvedR _ _ _
       rw [if_neg h1, addCost_unmetered_ok _ hu2]
       simp only [rbind_ok]
       rw [if_neg (by rw [inp_input, List.length_append, hflat]; omega)]
@@ -413,9 +401,8 @@ theorem vec_skip (env : Env) (m : Nat) (hI : SKI env m) (ww : Ty) (vs : List Val
           have := len_le_flatten bss hne
           rw [mapOutcomes_len (serVal sf) vs bss hm] at this
           exact this
-        have h1 : ¬ (vs.length * 3 > usizeMax) := by
-          have : vs.length * 3 ≤ bss.flatten.length * 11 := Nat.mul_le_mul hn (by omega)
-          omega
+        by_cases h1 : vs.length * 3 > usizeMax
+        · rw [if_pos h1]; first | exact Or.inl rfl | exact CoRel.starvedR _ _ _
         rw [if_neg h1, addCost_unmetered_ok _ hu2]
         simp only [rbind_ok]
         have hit := iterV_skips (fun s => if wp = .nat then bigNum (natAs fun m => if ww = .prim .int then .int m else .nat m) s
@@ -1174,12 +1161,6 @@ theorem tr_vec_elems (env : Env) (m : Nat) (hT : TR env m) (n : Nat) (w2 e2 : Ty
       exact Check.trace_nonvar env _ wire (Wire.trace_not_var env _ w2 wire hfullw)
     have hallw : ∀ x ∈ vs, ∃ k, canon env k x wire = true := fun x hx => canon_trace_inv env m w2 wire cf x htr (hall x hx)
     have hokwire : OKW env wire := hokw.step (reach_trace env m w2 wire htr)
-    have hbound : bss.flatten.length * 11 ≤ usizeMax := by
-      have := hsm2
-      unfold Small at this
-      rw [inp_input, List.length_append] at this
-      have h2 : bss.flatten.length * 11 ≤ (bss.flatten.length + r.length) * 11 := Nat.mul_le_mul_right 11 (Nat.le_add_right _ _)
-      omega
     refine CoRel.of_inp (a := bss.flatten ++ r) ?_
     cases hx : exactPrim e2 wire with
     | some p =>
@@ -1204,9 +1185,8 @@ theorem tr_vec_elems (env : Env) (m : Nat) (hT : TR env m) (n : Nat) (w2 e2 : Ty
       simp only [hsz, Option.getD_some]
       have hn : vs.length ≤ bss.flatten.length := by
         rw [hflat]; exact Nat.le_mul_of_pos_right _ hsz1.1
-      have h1 : ¬ (vs.length * (3 + sz) > usizeMax) := by
-        have : vs.length * (3 + sz) ≤ bss.flatten.length * 11 := Nat.mul_le_mul hn (by omega)
-        omega
+      by_cases h1 : vs.length * (3 + sz) > usizeMax
+      · rw [if_pos h1]; first | exact Or.inl rfl | exact CoRel.starvedR _ _ _
       rw [if_neg h1, addCost_unmetered_ok _ hu2]
       simp only [rbind_ok]
       rw [if_neg (by rw [inp_input, List.length_append, hflat]; omega)]
@@ -1276,9 +1256,8 @@ theorem tr_vec_elems (env : Env) (m : Nat) (hT : TR env m) (n : Nat) (w2 e2 : Ty
           have := len_le_flatten bss hne
           rw [mapOutcomes_len (serVal sf) vs bss hm] at this
           exact this
-        have h1 : ¬ (vs.length * 3 > usizeMax) := by
-          have : vs.length * 3 ≤ bss.flatten.length * 11 := Nat.mul_le_mul hn (by omega)
-          omega
+        by_cases h1 : vs.length * 3 > usizeMax
+        · rw [if_pos h1]; first | exact Or.inl rfl | exact CoRel.starvedR _ _ _
         rw [if_neg h1, addCost_unmetered_ok _ hu2]
         simp only [rbind_ok]
         refine (iterV_corel _ _ sf vs bss r _ (fun x hx' b r' s' hsx hu' hin' _ => ?_) hm hu2 (inp_input s _) hsm2).toVec
@@ -2355,7 +2334,7 @@ theorem message_rel (bs : Bytes) (env : Env) (expected : List Ty) (hd : Header) 
     (hm : mapOutcomes (serVal sf) vs = .ok bss) (hb : body = bss.flatten)
     (hokw : ∀ w ∈ hd.args, OKW (mergeEnv hd.table env expected).1 w)
     (hoke : ∀ e ∈ (mergeEnv hd.table env expected).2, OKE (mergeEnv hd.table env expected).1 e)
-    (hlen : (mergeEnv hd.table env expected).1.length + 2 ≤ De.defaultFuel) (hsm : body.length * 11 ≤ usizeMax) :
+    (hlen : (mergeEnv hd.table env expected).1.length + 2 ≤ De.defaultFuel) :
     ArgRel (coerceArgs (mergeEnv hd.table env expected).1 n false (mergeEnv hd.table env expected).1 hd.args vs
         (mergeEnv hd.table env expected).2)
       (decodeWithConfig bs env expected ⟨none, none⟩) := by
@@ -2366,7 +2345,7 @@ theorem message_rel (bs : Bytes) (env : Env) (expected : List Ty) (hd : Header) 
   rw [addCost_unmetered_ok _ hu0]
   simp only [rbind_ok]
   have := args_rel (mergeEnv hd.table env expected).1 hlen n (mergeEnv hd.table env expected).2 hd.args vs cf sf bss
-    { input := body, gamma := [], dq := none, sq := none, untyped := false } [] hl hc hm hb hu0 hokw hoke hsm
+    { input := body, gamma := [], dq := none, sq := none, untyped := false } [] hl hc hm hb hu0 hokw hoke trivial
   have hid : (fun (x : List Val) => ([] : List Val).reverse ++ x) = id := by funext x; simp
   rw [hid] at this
   have hmap : ∀ (x : Outcome (List Val)), x.map id = x := by intro x; cases x <;> rfl
